@@ -3,7 +3,16 @@
 (* emission of every reached configuration as a replayable case (spec -> implementation). *)
 EXTENDS SpeedProfile, Json
 
-Tr(n, vmax) == [n |-> n, car_len |-> 1, car_mass |-> 1000, axles |-> 4, vmax |-> vmax]
+Tr(n, vmax) == [n |-> n, car_len |-> 1, car_mass |-> 1000, axles |-> 4, vmax |-> vmax, more |-> <<>>, len_ov |-> 0, mass_ov |-> 0]
+\* a further car type: count (0 = listed but absent), length, maximum speed; 2 brakes and 6 axles per car
+Ty(n, len, vmax) == [n |-> n, car_len |-> len, car_mass |-> 500, axles |-> 6, vmax |-> vmax, brakes |-> 2]
+\* make-ups: a slower second type present / absent, a faster second type, two further types, overrides
+MkTrains == { [Tr(1, 3) EXCEPT !.more = <<Ty(1, 1, 2)>>],          \* slower type present: vmax 2, length 2
+              [Tr(1, 3) EXCEPT !.more = <<Ty(0, 1, 1)>>],          \* slower type absent: vmax 3, length 1
+              [Tr(1, 2) EXCEPT !.more = <<Ty(1, 2, 3)>>],          \* faster second type: vmax 2, length 3
+              [Tr(1, 3) EXCEPT !.more = <<Ty(0, 2, 1), Ty(2, 1, 3)>>],   \* length 3
+              [Tr(2, 3) EXCEPT !.len_ov = 1],                       \* explicit train length shorter than the cars
+              [Tr(1, 3) EXCEPT !.mass_ov = 3000, !.more = <<Ty(1, 1, 3)>>] }
 
 \* gates: none / one that applies / one that blocks (relative to the trains below)
 GNone == <<>>
@@ -39,6 +48,11 @@ TB_Trains == {Tr(2, 3), Tr(1, 2)}
 TB_LinkLens == {3}
 TB_Speeds == {1, 2}
 TB_Gates == {GNone, GAxleEq(2)}      \* applies to the 2-car train, blocks the 1-car train
+
+\* ---- make-up: one link, tail-end / head-end sets, <= 2 restrictions on 0..4, gates that look at the derived parameters
+MK_LinkLens == {4}
+MK_Speeds == {1, 2}
+MK_Gates == {GNone, << <<1, 1, 700>> >>, << <<2, 3, 10>> >>, << <<0, 4, 1500>> >>}
 
 \* ---- gate matrix: every (limit type, compare type) x {below, equal, above}
 GM_Trains == {Tr(2, 3)}
